@@ -91,9 +91,9 @@ check("C03", "model_checking",
 check("C06", "model_checking",
       "Design: the sixteen gate methods transcribed in spec/Constraints.tla satisfy GateOK (no ancilla, 0 where the gate holds, >= lam "
       "elsewhere) and the sat builders their truth functions, for all arities <= 3 (4 thorough) over labels, a negation and a conjunction. "
-      "Code: seeded calls of all sixteen real methods with 1-5 operands (labels of mixed types, expressions passed as dict or PUBO), "
+      "Code: seeded calls of all sixteen real methods with 1-9 operands (labels of mixed types, expressions passed as dict or PUBO), "
       "sequences of gates on one model; spec/CheckConstraints.tla judges penalty and is_solution_valid on every assignment.",
-      "bounded: 4 labels, arity <= 5, lam in {1/2,1,2,3}; operands' polynomials are defined by the harness (not by qubovert.sat)",
+      "bounded: 6 labels, arity <= 9, lam in {1/2,1,2,3}; operands' polynomials are defined by the harness (not by qubovert.sat)",
       "TLA+ contract + transcription checked by TLC; real gate-constraint calls recorded and judged by TLC", "DESIGN 3 C06")
 
 check("C01", "model_checking",
@@ -110,6 +110,29 @@ check("C01", "model_checking",
       "half-integer coefficients; refreshed models as the statement requires; trusted: TLC, record encoder, hook H1 (add-only)",
       "TLA+ step machine + local lemma checked by TLC; real reduced forms judged on full truth tables by TLC; real reduction "
       "certificates validated as traces by TLC", "DESIGN 3 C01")
+
+check("C05", "model_checking",
+      "spec/PolyLaws.tla (TLC, every polynomial / pair over 2-3 labels) ties spec/Poly.tla to the pointwise meaning of + - * ** "
+      "negation, evaluation, boolean<->spin, squashing. spec/ModelObj.tla composes every operator (binary, reflected, in-place, scalar, "
+      "power, negation, division) from one __setitem__ exactly as the code does; TLC explores it exhaustively to a depth bound for "
+      "six pairs of classes (all ten kinds). Every transition of the 2-step graph of two families and long simulated expression "
+      "histories are replayed on the real classes; spec/ModelObjTrace.tla validates each step: stored function pinned (= polynomial "
+      "arithmetic), raw keys canonical (sorted-duplicate-free keys, no zero coefficient), class of the result, operands and every other "
+      "object unchanged, KeyError for products of quadratic kinds whose value exceeds degree 2, and value / pubo_value / qubo_value / "
+      "puso_value / quso_value for dict, list and tuple assignments against direct evaluation.",
+      "bounded: <= 3 labels, coefficients in {-1,0,1}, histories of <= 3 steps exhaustively and <= 10 by simulation; result class "
+      "judged only when the operands do not have two different model classes; trusted: TLC, harness projection",
+      "TLA+ laws + state machine checked by TLC; spec behaviours replayed into the classes; trace validation by TLC", "DESIGN 3 C05")
+check("C19", "model_checking",
+      "spec/ModelObj.tla with copy / copy-constructor / get_info+create_from_info / getter-probe actions next to every mutator; TLC "
+      "explores it exhaustively to a depth bound; behaviours are replayed on the real classes and spec/ModelObjTrace.tla validates after "
+      "EVERY operation that every object other than the target is unchanged in its full projection (terms, caches, mapping, reverse "
+      "mapping, constraints, name, ancilla count), so aliasing between a model and its copy / info clone / getter result / operand is "
+      "caught as soon as either side is mutated; info round trips must reproduce type, terms, name, mapping, ancilla count, constraints "
+      "and get_info equality. 110 library entry points (conversions, solvers, annealers, sat builders, constraint methods, problems, "
+      "operators) are called with deep snapshots of their arguments; spec/CheckImmutable.tla asserts the recorded observations.",
+      "bounded histories (<= 3 steps exhaustive, <= 12 simulated); argument immutability is an observation per call, not a proof",
+      "TLA+ state machine checked by TLC; spec behaviours replayed into the classes; trace validation by TLC", "DESIGN 3 C19")
 
 
 def build():
